@@ -309,3 +309,34 @@ pub mod cb {
         }
     }
 }
+
+
+// ---- sequence origin & state introspection for explicit-state exploration ---------------------------------------------
+
+static SEQUENCE_ORIGIN: std::sync::atomic::AtomicU32 = std::sync::atomic::AtomicU32::new(0);
+
+/// Ring buffers created from now on start their free-running sequence counters at `origin` instead of 0
+/// (so that histories can be run next to the 32-bit wrap without transporting 2^32 events first)
+pub fn set_sequence_origin(origin: u32) {
+    SEQUENCE_ORIGIN.store(origin, StdOrdering::SeqCst);
+}
+
+/// See [set_sequence_origin()]
+#[inline(always)]
+pub fn sequence_origin() -> u32 {
+    SEQUENCE_ORIGIN.load(StdOrdering::Relaxed)
+}
+
+/// Canonical view of the *internal* bookkeeping of a container / channel at rest: sequence counters are reported relative to `head`
+/// (plus `head % BUFFER_SIZE`), followed by a hash of the buffered elements. No event is reported to the hook.
+pub trait VerifState {
+    fn verif_state(&self, out: &mut Vec<u64>);
+}
+
+/// helper for [VerifState] implementors
+pub fn hash_debug<T: std::fmt::Debug>(what: &T) -> u64 {
+    use std::hash::{Hash, Hasher};
+    let mut h = std::collections::hash_map::DefaultHasher::new();
+    format!("{:?}", what).hash(&mut h);
+    h.finish()
+}
